@@ -1,5 +1,6 @@
 import Qfx.Drv.Util
 import Qfx.Model.Values
+import Qfx.Model.Decimal
 namespace Qfx.Drv
 open Qfx
 
@@ -30,6 +31,19 @@ def valStep (_ : Unit) (w : List String) : Unit × String :=
   | ["float", "read", h] => (match fromHex h with
       | some b => if acceptFloat b then "ok" else "err"
       | none => "bad-op")
+  | ["dec", "read", h] => (match fromHex h with
+      | some b => resStr (fun (d : Qfx.Dec.Dec) => (if d.neg then "-" else "") ++ toString d.mag ++ " " ++ toString d.scale) (Qfx.Dec.readDec b)
+      | none => "bad-op")
+  | ["dec", "write", h, sc] => (match fromHex h, sc.toNat? with
+      | some b, some sc => (match Qfx.Dec.readDec b with
+          | .ok d => toHex (Qfx.Dec.writeDec d sc)
+          | _ => "unreadable")
+      | _, _ => "bad-op")
+  | ["udec", "write", h, sc] => (match fromHex h, sc.toNat? with
+      | some b, some sc => (match Qfx.Dec.readDec b with
+          | .ok d => toHex (Qfx.Dec.writeUDec d sc)
+          | _ => "unreadable")
+      | _, _ => "bad-op")
   | ["str", "read", h] => (match fromHex h with
       | some b => resStr toHex (readStr b)
       | none => "bad-op")
